@@ -65,6 +65,27 @@ def handle : List String → String
       let o := sessionDownloadOutcome (logged log) a enc ps
       encRes (o.observed _ a.keepFile) ++ " " ++ encBool a.raw ++ " " ++ encRem (remaining log o.final)
     | _, _, _, _ => "bad-arg"
+  | ["respx", e, ct, cd, url, pieces, log] =>
+    -- `resp` with the rest of the header block in view (Content-Type, Content-Disposition, URL)
+    let opt (t : String) : Option (Option Str) := if t == "None" then some none
+      else if t.startsWith "=" then (decList? (t.drop 1).toString).map some else none
+    match opt e, opt ct, opt cd, decList? url, decLists? pieces, decLog? log with
+    | some enc, some ctype, some cdisp, some u, some ps, some log =>
+      let o := readBodyFrom (logged log) (setupFromResponse (logged log) .none ⟨enc, ctype, cdisp, u⟩) ps
+      encRes o.result ++ " " ++ encLists o.outs ++ " " ++ encRem (remaining log o.final)
+    | _, _, _, _, _, _ => "bad-arg"
+  | ["steps", level, c, ops, log] =>
+    -- one decoder object of a history, replayed alone over its own calls and its own zlib log
+    -- (`frame_property`): ops are `/`-separated, `F` = flush, otherwise the bytes fed
+    let ops? : Option (List HOp) := if ops == "~" then some [] else
+      (ops.splitOn "/").mapM (fun t => if t == "F" then some HOp.flush else (decList? t).map HOp.feed)
+    match decCoding? c, ops?, decLog? log with
+    | some c, some ops, some log =>
+      let r := if level == "s" then runAlone (logged log) (Dec.step (logged log)) (setup (logged log) c) ops
+               else runAlone (logged log) (Dec.stepRaw (logged log)) (setup (logged log) c) ops
+      let outs := r.2.map (fun x => match x with | .ok b => "ok:" ++ encList b | .error e => "exc:" ++ e.name)
+      (if outs.isEmpty then "~" else "/".intercalate outs) ++ " " ++ encRem (remaining log r.1)
+    | _, _, _ => "bad-arg"
   | ["framing", il, lp, f] =>
     let f? : Option Framing := match f with
       | "x" => some .chunked | "l" => some .length | "c" => some .close | _ => none
